@@ -336,6 +336,8 @@ Lemma calm_pop_task s : calm s (pop_task s). Proof. apply calm_view; reflexivity
 Lemma calm_with_tasks s t : calm s (with_tasks s t). Proof. apply calm_view; reflexivity. Qed.
 Lemma calm_with_active s a : calm s (with_active s a). Proof. apply calm_view; reflexivity. Qed.
 Lemma calm_reset_sched s : calm s (reset_sched s). Proof. apply calm_view; reflexivity. Qed.
+Lemma calm_drop_sb s : calm s (drop_sb s).
+Proof. apply calm_view; [apply heap_drop_sb|apply top_next_drop_sb|apply trace_drop_sb]. Qed.
 
 Lemma calm_set_task' t out tk tk' s :
   get t s = Some (mkFut out (KTask tk)) -> tk_iter tk' = tk_iter tk -> calm s (set_task t tk' s).
@@ -358,6 +360,7 @@ Ltac ch :=
   | |- calm _ (with_tasks _ _) => eapply calm_trans; [|apply calm_with_tasks]
   | |- calm _ (with_active _ _) => eapply calm_trans; [|apply calm_with_active]
   | |- calm _ (reset_sched _) => eapply calm_trans; [|apply calm_reset_sched]
+  | |- calm _ (drop_sb _) => eapply calm_trans; [|apply calm_drop_sb]
   | |- calm _ (resume_contexts _ _) => eapply calm_trans; [|apply calm_resume_contexts]
   | |- calm _ (pause_contexts _ _) => eapply calm_trans; [|apply calm_pause_contexts]
   | |- calm _ (complete_task _ _ _) => eapply calm_trans; [|apply calm_complete_task]
